@@ -41,6 +41,11 @@ def gen(rng):
     for s in data + funcs:
         if s["home"] == "lib":
             s["vis"] = "default"
+    for f in funcs:
+        # some functions are STT_GNU_IFUNC: the symbol names a resolver, the value every reference must end up with is what it returns
+        f["ifunc"] = rng.random() < 0.3
+        if f["ifunc"]:
+            f["vis"] = "default"
     return data, funcs, tls
 
 
@@ -59,7 +64,12 @@ def module_source(mod, data, funcs, tls, accessors):
             s += [f'.section .text.f{f["n"]},"ax",@progbits', f".globl f{f['n']}", f".type f{f['n']},@function"]
             if f["vis"] != "default":
                 s.append(f".{f['vis']} f{f['n']}")
-            s += [f"f{f['n']}:", f" mov ${100 + f['n']}, %eax", " ret", f".size f{f['n']}, .-f{f['n']}"]
+            if f.get("ifunc"):
+                s[-1] = f".type f{f['n']},@gnu_indirect_function"
+                s += [f"f{f['n']}:", f" lea f{f['n']}_impl(%rip), %rax", " ret", f".size f{f['n']}, .-f{f['n']}",
+                      f".type f{f['n']}_impl,@function", f"f{f['n']}_impl:", f" mov ${100 + f['n']}, %eax", " ret", f".size f{f['n']}_impl, .-f{f['n']}_impl"]
+            else:
+                s += [f"f{f['n']}:", f" mov ${100 + f['n']}, %eax", " ret", f".size f{f['n']}, .-f{f['n']}"]
     for t in tls:
         if t["home"] == mod:
             if t["bss"]:
@@ -117,7 +127,7 @@ def plan(rng, data, funcs, tls, kind):
         data = [dict(x, home="lib") for x in data]
         funcs = [dict(x, home="lib") for x in funcs]
         tls = [dict(x, home="lib") for x in tls]
-    pic = kind != "static"
+    pic = kind not in ("static", "nopie-dyn")
     for d in data:
         forms = ["lea", "got", "table", "rel32data"] + ([] if pic else ["movabs", "imm32"])
         for mod in mods:
@@ -146,11 +156,14 @@ def plan(rng, data, funcs, tls, kind):
                     continue
                 if rng.random() < 0.5:
                     continue
-                acc.append({"name": f"acc{k}", "mod": mod, "sym": f"f{f['n']}", "off": 0, "form": form, "want": 100 + f["n"], "cls": "call" if form == "plt" else "func"})
+                # addresses of one function need not agree across forms for an IFUNC (a pc-relative reference gives the PLT entry, a GOT or data
+                # reference the resolved address, in GNU ld as well) nor for a library function seen from a non-PIC executable (C38's subject)
+                nocmp = bool(f.get("ifunc")) or (kind == "nopie-dyn" and f["home"] == "lib")
+                acc.append({"name": f"acc{k}", "mod": mod, "sym": f"f{f['n']}", "off": 0, "form": form, "want": 100 + f["n"], "cls": "call" if form == "plt" else "func", "nocmp": nocmp})
                 k += 1
     for t in tls:
         for mod in mods:
-            forms = ["gottpoff", "tlsgd", "tlsdesc"] + (["tpoff"] if kind in ("static", "static-pie", "pie") else []) + (["tlsld"] if t["home"] == mod else [])
+            forms = ["gottpoff", "tlsgd", "tlsdesc"] + (["tpoff"] if kind in ("static", "static-pie", "pie", "nopie-dyn") else []) + (["tlsld"] if t["home"] == mod else [])
             for form in forms:
                 if rng.random() < 0.4:
                     continue
@@ -165,9 +178,9 @@ def driver(acc):
     s = ["#include <stdio.h>", "#include <stdint.h>"]
     s += [f"extern void *{a['name']}(void);" for a in acc]
     s.append("long anchor_data = 7; __thread long anchor_tls = 9;")
-    s.append("struct e { void *(*fn)(void); long want; int cls; const char *sym; int off; const char *form; };")
+    s.append("struct e { void *(*fn)(void); long want; int cls; const char *sym; int off; const char *form; int nocmp; };")
     cls = {"data": 0, "func": 1, "call": 2, "null": 3}
-    s.append("static struct e tab[] = {" + ", ".join(f'{{{a["name"]}, {a["want"]}, {cls[a["cls"]]}, "{a["sym"]}", {a["off"]}, "{a["form"]}"}}' for a in acc) + "};")
+    s.append("static struct e tab[] = {" + ", ".join(f'{{{a["name"]}, {a["want"]}, {cls[a["cls"]]}, "{a["sym"]}", {a["off"]}, "{a["form"]}", {int(bool(a.get("nocmp")))}}}' for a in acc) + "};")
     s.append("""int main(void) { int bad = 0; unsigned n = sizeof tab / sizeof *tab;
   printf("ANCHOR %lx %lx\\n", (unsigned long)(uintptr_t)&anchor_data, (unsigned long)(uintptr_t)&anchor_tls);
   for (unsigned i = 0; i < n; i++) { void *p = tab[i].fn(); long got;
@@ -178,7 +191,7 @@ def driver(acc):
     printf("%s+%d %s %lx %ld\\n", tab[i].sym, tab[i].off, tab[i].form, tab[i].cls == 2 ? 0UL : (unsigned long)(uintptr_t)p - (unsigned long)tab[i].off, got);
     if (got != tab[i].want) { printf("WRONG %s+%d via %s: %ld, expected %ld\\n", tab[i].sym, tab[i].off, tab[i].form, got, tab[i].want); bad = 1; } }
   for (unsigned i = 0; i < n; i++) for (unsigned j = i + 1; j < n; j++)
-    if (tab[i].cls < 2 && tab[j].cls < 2 && tab[i].sym == tab[j].sym || 0) {
+    if (tab[i].cls < 2 && tab[j].cls < 2 && !tab[i].nocmp && !tab[j].nocmp) {
       char *a = (char *)tab[i].fn() - tab[i].off, *b = (char *)tab[j].fn() - tab[j].off;
       if (__builtin_strcmp(tab[i].sym, tab[j].sym) == 0 && a != b) { printf("DISAGREE %s: %s gives %p, %s gives %p\\n", tab[i].sym, tab[i].form, (void *)a, tab[j].form, (void *)b); bad = 1; } }
   puts(bad ? "FAILED" : "ALL-CORRECT"); return bad; }""")
@@ -206,7 +219,7 @@ def run(chk, replay=None):
             r = random.Random(seed)
             data, funcs, tls = gen(r)
             stats["programs"] += 1
-            for kind in ("static", "static-pie", "pie", "shared"):
+            for kind in ("static", "static-pie", "pie", "nopie-dyn", "shared"):
                 acc = plan(r, data, funcs, tls, kind)
                 if kind == "shared":
                     # everything lives in the library; the driver is a PIE using it
@@ -219,7 +232,7 @@ def run(chk, replay=None):
                 open(f"{d}/drv.c", "w").write(driver(acc))
                 rep = {"seeds": [seed], "kind": kind}
                 asm = " && ".join(f"as --64 {m}.s -o {m}.o" for m in srcs)
-                cc = {"static": "-fno-pie", "static-pie": "-fPIE", "pie": "-fPIE", "shared": "-fPIE"}[kind]
+                cc = {"static": "-fno-pie", "static-pie": "-fPIE", "pie": "-fPIE", "nopie-dyn": "-fno-pie", "shared": "-fPIE"}[kind]
                 build = {}
                 for linker in ("wild", "ld"):
                     B = f"-B{d}/bin" if linker == "wild" else ""
@@ -227,6 +240,8 @@ def run(chk, replay=None):
                         link = f"gcc {B} -shared lib.o -o libacc.so && gcc {B} -pie drv.o -o prog.{linker} -L. -lacc -Wl,-rpath,{d}"
                     elif kind == "pie":
                         link = f"gcc {B} -shared lib.o -o libdefs.so && gcc {B} -pie drv.o a.o b.o -o prog.{linker} -L. -ldefs -Wl,-rpath,{d}"
+                    elif kind == "nopie-dyn":
+                        link = f"gcc {B} -shared lib.o -o libdefs.so && gcc {B} -no-pie drv.o a.o b.o -o prog.{linker} -L. -ldefs -Wl,-rpath,{d}"
                     else:
                         link = f"gcc {B} {'-static -no-pie' if kind == 'static' else '-static-pie'} drv.o a.o b.o lib.o -o prog.{linker}"
                     rc, out = sh(f"cd {d} && rm -f prog.{linker} && {asm} && gcc -O1 {cc} -c drv.c -o drv.o && {link}", timeout=300)
@@ -271,8 +286,10 @@ def run(chk, replay=None):
                                 homes = {f"d{x['n']}": x["home"] for x in data}
                                 homes.update({f"f{x['n']}": x["home"] for x in funcs})
                                 homes.update({f"t{x['n']}": x["home"] for x in tls})
-                                if homes.get(sym) == "lib" and kind == "pie":
+                                if homes.get(sym) == "lib" and kind in ("pie", "nopie-dyn"):
                                     continue                          # lives in another module with its own base
+                                if any(x.get("ifunc") and f"f{x['n']}" == sym for x in funcs):
+                                    continue                          # an IFUNC's address is what its resolver returns or a PLT entry, not st_value
                                 istls = sym.startswith("t")
                                 k_ = "TpOff" if istls else "PcRel"
                                 S_ = tlsph["vaddr"] + st[sym] if istls else st[sym]
@@ -310,7 +327,8 @@ def run(chk, replay=None):
         "evaluations": stats["runs"], "distinct_nontrivial": stats["accessors"],
         "rule": "3-6 data arrays, 2-4 functions, 1-3 TLS arrays per program, defined in object a, object b or a library, default/hidden/protected; about half of all (symbol, module, form) "
                 "combinations get an accessor with a random element offset; forms: lea, @GOTPCREL, .quad table, .long sym-., movabs, mov $imm32, @PLT call, @tpoff, @gottpoff, @tlsgd, @tlsdesc, "
-                "@tlsld+@dtpoff, weak undefined; kinds: static non-PIC, static-PIE, PIE + shared library of definitions, shared library of everything + PIE driver",
+                "@tlsld+@dtpoff, weak undefined; 30% of the functions are IFUNCs; kinds: static non-PIC, static-PIE, PIE + shared library of definitions, non-PIC non-PIE executable + shared library "
+                "of definitions (copy relocations, direct references to imported functions), shared library of everything + PIE driver",
         "stats": stats,
     })
     return chk.finish(TRUSTED)
